@@ -67,7 +67,7 @@ def isAccepted (r : String) : Bool := r == "ok" || r.startsWith "werr:"
 /-- the call must be rejected up front: a message larger than BatchBytes or a topic conflict / missing topic -/
 def mustReject (cfg : MCfg) (c : CDecl) : Bool :=
   c.msgs.any (fun m => decide (cfg.bb < m.size) || (cfg.topic ≠ "" && m.topic ≠ "") || (cfg.topic == "" && m.topic == "") ||
-    m.topic == "nope")     -- "nope": the one topic the fake cluster does not have (metadata lookup fails)
+    m.topic.startsWith "nope")     -- nope<code>: topics the fake cluster does not have (the metadata lookup fails with <code>)
 
 /-! ## C08 -/
 
@@ -133,6 +133,8 @@ def dupsOk (journal : List JReq) (obs : Obs) (cfg : MCfg) (m : MDecl) : Bool :=
   ((logOf obs (expectedTP cfg m)).count m.key == rs.length)
 
 def holdsC01 (cfg : MCfg) (calls : List CDecl) (journal : List JReq) (obs : Obs) : Bool :=
+  -- every request reached the broker with the configured acks (≠ None) and options
+  obs.multi == 0 &&
   -- nil ⇒ everything acknowledged in the chosen partition; WriteErrors[i] = nil ⇔ message i acknowledged
   calls.all (fun c =>
     let r := retOf obs c.id
